@@ -2,6 +2,7 @@ package check
 
 import (
 	"bytes"
+	"encoding/json"
 	"fmt"
 	"path/filepath"
 	"regexp"
@@ -491,6 +492,11 @@ func (st *wstate) checkDisk(i int, l *scen.Lifetime, lf *model.Life, after world
 			delete(d.Solo, path)
 			continue
 		}
+		if strings.HasSuffix(path, ".json") && s.K > 0 && isSJSON(lf, path) && !json.Valid(b) {
+			if st.hit(viol("standalone-json-invalid", i, -1, path, callProps("C19"), "standalone JSON snapshot %s is not valid JSON: %q", path, clip(string(b)))) {
+				return true
+			}
+		}
 		if s.Text.Known && !bytes.Equal(b, []byte(s.Text.S)) {
 			props := callProps("C19")
 			if touched[path] {
@@ -667,6 +673,9 @@ func (st *wstate) checkMulti(i int, l *scen.Lifetime, lf *model.Life, after worl
 	}
 	return nil
 }
+
+// isSJSON: the file was addressed by MatchStandaloneJSON in this lifetime.
+func isSJSON(lf *model.Life, path string) bool { return lf.SoloJSON[path] }
 
 func cleanLabelText(plan *model.CleanPlan, touched map[string]bool, path string, def []string) []string {
 	if plan != nil && touched[path] {
